@@ -7,12 +7,13 @@ from pyvc.models_wire import WirePlugin
 from pyvc.models_msg import MsgPlugin
 from contracts import varint as _v, single as _s
 
+DEPENDS = ['varint', 'single']
 SPEC_MODULES = ("wire", "msg")
 PLUGINS = [MsgPlugin(), WirePlugin()]
 
 MSG = {"self": "model:msg"}
 PRE = [("well-formed-class", "WF()"), ("in-range-values", "TY()")]
-FRAME = ("observer-frame", "forall(0, NF, lambda jq: VAL(jq) == old(VAL(jq))) and GCARR() == old(GCARR())"
+FRAME = ("observer-frame", "forall(0, NF, lambda jq: same(VAL(jq), old(VAL(jq)))) and GCARR() == old(GCARR())"
                            " and self._unknown_fields == old(self._unknown_fields)"
                            " and self._serialized_on_wire == old(self._serialized_on_wire)")
 
